@@ -65,6 +65,16 @@ func c15BatchConsts() []int {
 	return out
 }
 
+// entries per batch of ClickhouseGetterPlanner.Scan / ScanMatrix (Gen.C15Batch.getterBatch); 100 without a current driver
+func c15GetterBatch() int {
+	if ans, err := h.Model([]string{"c15getterbatch"}); err == nil && len(ans) == 1 {
+		if v, err := strconv.Atoi(ans[0]); err == nil && v >= 2 && v <= 5000 {
+			return v
+		}
+	}
+	return 100
+}
+
 // the size classes for a stream whose cases may have up to max rows
 func c15SizeClasses(consts []int, max int) []int {
 	set := map[int]bool{0: true, 1: true, 2: true, 3: true, 1000: true, 1001: true}
@@ -528,7 +538,7 @@ func (le *c15ListEnv) listCase(r *h.Result, pend *c15Pending, kind string, rows 
 		return err
 	}
 	body := []byte(strings.Join(out.chunks, ""))
-	rep := c15Replay{Stream: "sizes", Kind: kind, Rows: c15HexWords(rows), Body: h.Hex(body), Note: fmt.Sprintf("%d rows; batch sizes %v", len(rows), out.cuts)}
+	rep := c15Replay{Stream: "sizes", Kind: kind, Rows: c15HexWords(rows), Body: h.Hex(body), Note: fmt.Sprintf("%d rows; batch sizes %v", len(rows), out.cuts), Cuts: out.cuts}
 	r.Case(c15RowsKey(kind, rows), len(rows) >= 2)
 	r.Count("sizes:" + kind)
 	r.Count("sizes:rows:" + c15SizeBucket(len(rows), consts))
@@ -548,6 +558,8 @@ func (le *c15ListEnv) listCase(r *h.Result, pend *c15Pending, kind string, rows 
 	}
 	return nil
 }
+
+var c15GetterBatchCached = 100
 
 var c15ListKinds = []string{"labels", "values", "promvalues", "series", "labels-http", "values-http", "promlabels-http", "promvalues-http", "series-http", "promseries-http",
 	"tags", "tagvalues", "tagsv2", "valuesv2", "search", "searchql", "trace"}
@@ -587,7 +599,7 @@ func c15BigSet(rng *h.Rng, kind string, n int, layout int, consts []int) []c15En
 		}
 		return []c15KV{{[]byte("series"), v}}
 	}
-	c := consts[0]
+	c := c15GetterBatchCached
 	switch layout % 5 {
 	case 0: // one series
 		l := lblOf(0)
@@ -917,7 +929,8 @@ func c15SizesStream(r *h.Result, rng *h.Rng, env *c15Env, tier string) error {
 	}
 	pend := &c15Pending{stream: "sizes"}
 	le := newC15ListEnv(env)
-	c := consts[0]
+	c := c15GetterBatch()
+	c15GetterBatchCached = c
 	// element lists
 	for _, n := range listSizes {
 		for ki, kind := range c15ListKinds {
@@ -1144,7 +1157,7 @@ func c15SQLBig(r *h.Result, rng *h.Rng, env *c15Env, pend *c15Pending, sizes []i
 		batches := [][]c15Entry{append(append([]c15Entry{}, set...), c15Entry{Kind: 'e'})}
 		prow, _ := c15Rows("streams", batches)
 		words := c15Words(batches)
-		rep := c15Replay{Stream: "sql", Kind: "streams", Batches: words, Body: h.Hex(body), Note: fmt.Sprintf("%d rows (getter batches of %d); http=%v", n, consts[0], viaHTTP)}
+		rep := c15Replay{Stream: "sql", Kind: "streams", Batches: words, Body: h.Hex(body), Note: fmt.Sprintf("%d rows (getter batches of %d); http=%v", n, c15GetterBatchCached, viaHTTP)}
 		hh := fnv.New64a()
 		hh.Write([]byte(words))
 		r.Case(fmt.Sprintf("sizes:sql:%d:%x", n, hh.Sum64()), n >= 2)
@@ -1216,97 +1229,116 @@ func c15SQLBig(r *h.Result, rng *h.Rng, env *c15Env, pend *c15Pending, sizes []i
 // is; the rows come ordered by time (what the non-final ClickHouse plan delivers), interleaving `ns` streams. Judged by the
 // oracle of the property: one object per stream, every row once (the order of the objects is the engine's).
 func c15InprocBig(r *h.Result, rng *h.Rng, env *c15Env, sizes []int, consts []int) error {
-	ctx := context.Background()
 	// the witness of the recorded finding (Props/C15.lean optimizer_one_object_counterexample on the real threshold) every run
 	sizes = append(append([]int{}, sizes...), 3002)
 	for _, n := range sizes {
 		ns := 1 + (n+1)%3 // 1..3 streams
 		rows := make([]c15Entry, 0, n)
 		for i := 0; i < n; i++ {
-			s := i % ns
 			msg := []byte("m" + strconv.Itoa(i))
 			if (c15NearBatchEdge(i, consts) && rng.Chance(30)) || rng.Chance(3) {
 				msg = append(msg, h.Pick(rng, c15EdgeHot)...)
 			}
-			rows = append(rows, c15Entry{Kind: 'n', Fp: uint64(s + 1), Labels: []c15KV{{[]byte("series"), []byte("s" + strconv.Itoa(s))}}, Ts: int64(1700000000000000000 + i), Msg: msg})
+			rows = append(rows, c15InprocRow(i, ns, msg))
 		}
-		env.setRows([]string{"fingerprint", "labels", "string", "timestamp_ns"}, c15SQLRows(rows))
 		// with a limit (the result is bounded by the request): one object per stream must hold; without (limit 0, what
 		// /query_range passes when the parameter is absent) the stage sends its portions — recorded finding
 		limit := int64(1000000)
-		objKey := "C15/inproc/series-objects"
 		if n%2 == 0 && n > 0 {
 			limit = 0
-			objKey = "C15/inproc/unlimited-series-objects"
 		}
-		ch, err := env.qr.QueryRange(ctx, `{a="b"} | line_format "{{._entry}}"`, 0, 10e9, 1000, limit, true)
-		if err != nil {
+		if err := c15InprocCase(r, env, rows, ns, limit, consts); err != nil {
 			return err
 		}
-		body := []byte(strings.Join(c15Collect(ch), ""))
-		words := c15Words([][]c15Entry{rows})
-		rep := c15Replay{Stream: "sizes", Kind: "inproc", Batches: words, Body: h.Hex(body), Note: fmt.Sprintf("%d rows of %d streams interleaved by time through `| line_format`, limit %d", n, ns, limit)}
-		if n > 400 {
-			rep.Batches, rep.Body = "", "" // regenerated from n: row i belongs to stream i mod ns, line m<i>
+	}
+	return nil
+}
+
+func c15InprocRow(i, ns int, msg []byte) c15Entry {
+	s := i % ns
+	return c15Entry{Kind: 'n', Fp: uint64(s + 1), Labels: []c15KV{{[]byte("series"), []byte("s" + strconv.Itoa(s))}}, Ts: int64(1700000000000000000 + i), Msg: msg}
+}
+
+// row i belongs to stream i mod ns
+func c15InprocCase(r *h.Result, env *c15Env, rows []c15Entry, ns int, limit int64, consts []int) error {
+	n := len(rows)
+	env.setRows([]string{"fingerprint", "labels", "string", "timestamp_ns"}, c15SQLRows(rows))
+	objKey := "C15/inproc/series-objects"
+	if limit == 0 {
+		objKey = "C15/inproc/unlimited-series-objects"
+	}
+	ch, err := env.qr.QueryRange(context.Background(), `{a="b"} | line_format "{{._entry}}"`, 0, 10e9, 1000, limit, true)
+	if err != nil {
+		return err
+	}
+	body := []byte(strings.Join(c15Collect(ch), ""))
+	rep := c15Replay{Stream: "sizes", Kind: "inproc", Batches: c15Words([][]c15Entry{rows}), Body: h.Hex(body), Rows: fmt.Sprintf("n=%d ns=%d limit=%d", n, ns, limit),
+		Note: fmt.Sprintf("%d rows of %d streams interleaved by time through `| line_format`, limit %d", n, ns, limit)}
+	if n > 400 {
+		rep.Batches, rep.Body = "", "" // regenerated from n: row i belongs to stream i mod ns, line m<i>
+	}
+	r.Case(fmt.Sprintf("sizes:inproc:%d:%d:%d", n, ns, limit), n >= 2)
+	r.Count("sizes:inproc")
+	if limit == 0 {
+		r.Count("sizes:inproc-unlimited")
+	}
+	r.Count("sizes:rows:" + c15SizeBucket(n, consts))
+	if !json.Valid(body) {
+		r.Violate("C15/inproc/not-json", fmt.Sprintf("response over %d rows is not JSON: %s", n, c15Around(body)), rep)
+		return nil
+	}
+	doc, ok := jdoc(body)
+	if !ok || !c15KeysAre(doc, "status", "data") || doc.get("data").get("result") == nil || doc.get("data").get("result").kind != '[' {
+		r.Violate("C15/inproc/shape", "envelope", rep)
+		return nil
+	}
+	// every row once, under an object with its stream's labels; rows of a stream in time order
+	perStream := map[string][][]byte{}
+	objects := map[string]int{}
+	total := 0
+	bad := ""
+	for _, o := range doc.get("data").get("result").arr {
+		lb := o.get("stream")
+		if lb == nil || lb.get("series") == nil || o.get("values") == nil {
+			bad = "series object without stream labels / values"
+			break
 		}
-		r.Case(fmt.Sprintf("sizes:inproc:%d:%d:%d", n, ns, limit), n >= 2)
-		r.Count("sizes:inproc")
-		if limit == 0 {
-			r.Count("sizes:inproc-unlimited")
-		}
-		r.Count("sizes:rows:" + c15SizeBucket(n, consts))
-		if !json.Valid(body) {
-			r.Violate("C15/inproc/not-json", fmt.Sprintf("response over %d rows is not JSON: %s", n, c15Around(body)), rep)
-			continue
-		}
-		doc, ok := jdoc(body)
-		if !ok || !c15KeysAre(doc, "status", "data") || doc.get("data").get("result") == nil || doc.get("data").get("result").kind != '[' {
-			r.Violate("C15/inproc/shape", "envelope", rep)
-			continue
-		}
-		// every row once, under an object with its stream's labels; rows of a stream in time order
-		perStream := map[string][][]byte{}
-		objects := map[string]int{}
-		total := 0
-		bad := ""
-		for _, o := range doc.get("data").get("result").arr {
-			lb := o.get("stream")
-			if lb == nil || lb.get("series") == nil || o.get("values") == nil {
-				bad = "series object without stream labels / values"
+		k := string(lb.get("series").s)
+		objects[k]++
+		for _, p := range o.get("values").arr {
+			if p.kind != '[' || len(p.arr) != 2 {
+				bad = "value is not a pair"
 				break
 			}
-			k := string(lb.get("series").s)
-			objects[k]++
-			for _, p := range o.get("values").arr {
-				if p.kind != '[' || len(p.arr) != 2 {
-					bad = "value is not a pair"
-					break
-				}
-				perStream[k] = append(perStream[k], p.arr[1].s)
-				total++
-			}
+			perStream[k] = append(perStream[k], p.arr[1].s)
+			total++
 		}
-		if bad != "" {
-			r.Violate("C15/inproc/shape", bad, rep)
-			continue
+	}
+	if bad != "" {
+		r.Violate("C15/inproc/shape", bad, rep)
+		return nil
+	}
+	if total != n {
+		r.Violate("C15/inproc/rows", fmt.Sprintf("%d values for %d rows", total, n), rep)
+		return nil
+	}
+	for i, e := range rows {
+		k := "s" + strconv.Itoa(i%ns)
+		if len(perStream[k]) == 0 || !bytes.Equal(perStream[k][0], e.Msg) {
+			r.Violate("C15/inproc/line", fmt.Sprintf("row %d (%q) is not the next value of its stream", i, e.Msg), rep)
+			break
 		}
-		if total != n {
-			r.Violate("C15/inproc/rows", fmt.Sprintf("%d values for %d rows", total, n), rep)
-			continue
-		}
-		for i, e := range rows {
-			k := "s" + strconv.Itoa(i%ns)
-			if len(perStream[k]) == 0 || !bytes.Equal(perStream[k][0], e.Msg) {
-				r.Violate("C15/inproc/line", fmt.Sprintf("row %d (%q) is not the next value of its stream", i, e.Msg), rep)
-				break
-			}
-			perStream[k] = perStream[k][1:]
-		}
-		for k, c := range objects {
-			if c != 1 {
-				r.Violate(objKey, fmt.Sprintf("%d series objects for the stream %s (%d rows of %d streams interleaved by time, limit %d; ResponseOptimizerPlanner sends one batch per fingerprint every 3000 entries when the request has no limit)", c, k, n, ns, limit), rep)
-				break
-			}
+		perStream[k] = perStream[k][1:]
+	}
+	var ks []string
+	for k := range objects {
+		ks = append(ks, k)
+	}
+	sort.Strings(ks)
+	for _, k := range ks {
+		if c := objects[k]; c != 1 {
+			r.Violate(objKey, fmt.Sprintf("%d series objects for the stream %s (%d rows of %d streams interleaved by time, limit %d; ResponseOptimizerPlanner sends one batch per fingerprint every 3000 entries when the request has no limit)", c, k, n, ns, limit), rep)
+			break
 		}
 	}
 	return nil
@@ -1322,7 +1354,7 @@ func c15TailBig(r *h.Result, rng *h.Rng, env *c15Env, pend *c15Pending, sizes []
 			continue
 		}
 		set := c15BigSet(rng, "tail", n, n+3, consts)
-		tcs = append(tcs, tc{c15BigBatching(rng, set, n, consts[0])})
+		tcs = append(tcs, tc{c15BigBatching(rng, set, n, c15GetterBatchCached)})
 	}
 	type res struct {
 		lr *h.Result
@@ -1381,10 +1413,33 @@ func c15ReplayList(r *h.Result, rep c15Replay) error {
 		r.Notes = append(r.Notes, "Prometheus cases are regenerated from the seed (the query is derived from the rows and a random evaluation time); body_hex holds the response")
 		return nil
 	}
+	if rep.Kind == "inproc" {
+		var n, ns int
+		var limit int64
+		if s, ok := rep.Rows.(string); !ok || func() bool { k, _ := fmt.Sscanf(s, "n=%d ns=%d limit=%d", &n, &ns, &limit); return k != 3 }() {
+			return fmt.Errorf("inproc replay without n/ns/limit")
+		}
+		var erows []c15Entry
+		if rep.Batches != "" {
+			bs, err := c15ParseWords(rep.Batches)
+			if err != nil {
+				return err
+			}
+			erows = bs[0]
+		} else {
+			for i := 0; i < n; i++ {
+				erows = append(erows, c15InprocRow(i, ns, []byte("m"+strconv.Itoa(i))))
+			}
+		}
+		return c15InprocCase(r, newC15Env(), erows, ns, limit, consts)
+	}
 	le := newC15ListEnv(newC15Env())
 	var bs []int
 	if rep.Kind == "searchql" {
-		bs = []int{consts[0]}
+		bs = rep.Cuts
+		if len(bs) == 0 {
+			bs = []int{c15GetterBatch()}
+		}
 	}
 	if err := le.listCase(r, pend, rep.Kind, rows, bs, consts, true); err != nil {
 		return err
